@@ -87,6 +87,8 @@ struct Case
     std::vector<std::string> want_pos; // C02
     std::vector<int> probe;            // C12: positional indices to probe
     int late = 0; // the last `late` entries are declared only after a first parse() on the object
+    int moved = 0; // 1: the parser is move-constructed before parsing, 2: move-assigned onto a used parser
+    bool argc0 = false; // parse(0, {NULL}): the empty argument vector without even a program name
 
     template <class A>
     void io(A& a)
@@ -100,6 +102,8 @@ struct Case
         a("want_pos", want_pos);
         a("probe", probe);
         a("late", late);
+        a("moved", moved);
+        a("argc0", argc0);
     }
 };
 
@@ -160,6 +164,10 @@ inline std::string describe_decl(const Case& c)
     o << "} positionals=" << c.limit << (c.greedy ? " greedy" : "");
     if (c.late)
         o << " [last " << c.late << " declared after a first parse]";
+    if (c.moved)
+        o << (c.moved == 1 ? " [parser move-constructed]" : " [parser move-assigned onto a used parser]");
+    if (c.argc0)
+        o << " [argc == 0]";
     return o.str();
 }
 
@@ -609,18 +617,33 @@ inline Outcome model_parse(const Case& c, const Step& st)
 // the real parser
 
 // declares the entries [from, to) on an existing parser
-inline void declare_entries(nitro::options::parser* p, const Case& c, std::size_t from, std::size_t to)
+// references to the three groups, obtained once and kept (a caller may hold on to them)
+struct HeldGroups
+{
+    nitro::options::group* g[3] = { nullptr, nullptr, nullptr };
+    void fetch(nitro::options::parser* p)
+    {
+        g[0] = &p->group();
+        g[1] = &p->group("g1", "named group");
+        g[2] = &p->group("g2", "named group");
+    }
+};
+
+inline void declare_entries(nitro::options::parser* p, const Case& c, std::size_t from, std::size_t to,
+                            const HeldGroups* held = nullptr)
 {
     for (std::size_t i = from; i < to && i < c.e.size(); ++i)
     {
         const Entry& e = c.e[i];
         // entries live in the default group (declared through the parser or through group())
-        // or in one of two named groups; parsing must not care
+        // or in one of two named groups; parsing must not care. With `held`, everything is
+        // declared through group references that were obtained earlier.
         nitro::options::group& grp =
-            e.group % 3 == 0 ? p->group() : p->group(e.group % 3 == 1 ? "g1" : "g2", "named group");
+            held ? *held->g[e.group % 3]
+                 : (e.group % 3 == 0 ? p->group() : p->group(e.group % 3 == 1 ? "g1" : "g2", "named group"));
         if (e.kind == OPTION)
         {
-            auto& o = (e.group % 3 == 0 && i % 2 == 0) ? p->option(e.name, "d") : grp.option(e.name, "d");
+            auto& o = (!held && e.group % 3 == 0 && i % 2 == 0) ? p->option(e.name, "d") : grp.option(e.name, "d");
             if (!e.short_.empty())
                 o.short_name(e.short_);
             if (e.optional)
@@ -632,7 +655,7 @@ inline void declare_entries(nitro::options::parser* p, const Case& c, std::size_
         }
         else if (e.kind == MULTI)
         {
-            auto& o = (e.group % 3 == 0 && i % 2 == 0) ? p->multi_option(e.name, "d") : grp.multi_option(e.name, "d");
+            auto& o = (!held && e.group % 3 == 0 && i % 2 == 0) ? p->multi_option(e.name, "d") : grp.multi_option(e.name, "d");
             if (!e.short_.empty())
                 o.short_name(e.short_);
             if (e.optional)
@@ -644,7 +667,7 @@ inline void declare_entries(nitro::options::parser* p, const Case& c, std::size_
         }
         else
         {
-            auto& o = (e.group % 3 == 0 && i % 2 == 0) ? p->toggle(e.name, "d") : grp.toggle(e.name, "d");
+            auto& o = (!held && e.group % 3 == 0 && i % 2 == 0) ? p->toggle(e.name, "d") : grp.toggle(e.name, "d");
             if (!e.short_.empty())
                 o.short_name(e.short_);
             if (e.reversible)
@@ -710,20 +733,54 @@ struct Probe
     std::string value_br;
 };
 
+// the result of the previous parse() on the same object, kept alive by the caller: a C-style
+// caller may pass value strings of that result as arguments of the next call
+struct PrevResult
+{
+    bool has = false;
+    nitro::options::arguments args;
+    std::vector<nitro::options::arguments> all; // every earlier result, with its positionals at that time
+    std::vector<std::vector<std::string>> all_pos;
+};
+
 inline Outcome real_parse(nitro::options::parser& p, const Case& c, const Step& st,
-                          std::vector<Probe>* probes = nullptr)
+                          std::vector<Probe>* probes = nullptr, PrevResult* prev = nullptr)
 {
     Outcome out;
     apply_env(c, st);
     try
     {
         nitro::options::arguments args;
-        if (c.via_argv)
+        if (c.argc0 && st.argv.empty())
+        {
+            const char* none[] = { nullptr };
+            args = p.parse(0, none);
+        }
+        else if (c.via_argv)
         {
             std::vector<const char*> av;
             av.push_back("prog");
             for (auto& s : st.argv)
-                av.push_back(s.c_str());
+            {
+                const char* ptr = s.c_str();
+                // a value token that equals a value of the previous result is passed as a pointer
+                // into that result's own string
+                if (prev && prev->has && is_value_token(s))
+                    for (auto& e : c.e)
+                        if (e.kind == OPTION)
+                        {
+                            try
+                            {
+                                const std::string& old = prev->args.get(e.name);
+                                if (old == s)
+                                    ptr = old.c_str();
+                            }
+                            catch (const std::exception&)
+                            {
+                            }
+                        }
+                av.push_back(ptr);
+            }
             args = p.parse(static_cast<int>(av.size()), av.data());
         }
         else
@@ -761,6 +818,13 @@ inline Outcome real_parse(nitro::options::parser& p, const Case& c, const Step& 
                 out.provided.insert(e.name);
         }
         out.pos = args.positionals();
+        if (prev)
+        {
+            prev->has = true;
+            prev->args = args;
+            prev->all.push_back(args);
+            prev->all_pos.push_back(out.pos);
+        }
         if (probes)
         {
             for (auto& pr : *probes)
